@@ -35,6 +35,7 @@ import re
 import sys
 import types
 import typing
+import typing_extensions
 import uuid
 
 import pendulum
@@ -149,6 +150,24 @@ class TDSub(TD):
     extra: str
 class TDEmpty(typing.TypedDict):
     pass
+# the same declarations through the typing_extensions back-port (below Python 3.13 an implementation of its own, with its own metaclass)
+import typing_extensions
+class TDX(typing_extensions.TypedDict):
+    k: int
+class TDXP(typing_extensions.TypedDict, total=False):
+    k: int
+    opt: typing_extensions.Required[str]
+class TDXSub(TDX):
+    extra: typing_extensions.NotRequired[str]
+TDXF = typing_extensions.TypedDict("TDXF", {"k": int, "with-dash": str})
+@dataclasses.dataclass
+class CallDC:
+    """instances can be called: a virtual subclass of collections.abc.Callable, and a dataclass all the same"""
+    a: int = 0
+    def __call__(self, *args): return args
+class CallNT(typing.NamedTuple):
+    p: int = 0
+    def __call__(self): return self.p
 class TDPEmpty(typing.TypedDict, total=False):
     pass
 @dataclasses.dataclass
@@ -221,7 +240,9 @@ def catalogue():
     user = {"DC": "dataclass", "DCF": "dataclass", "NT": "namedtuple", "CNT": "namedtuple", "TD": "typeddict", "TDP": "typeddict",
             "Plain": "plain", "Slots": "plain",
             # subclasses of each structured flavour, and TypedDicts without any key
-            "NTSub": "namedtuple", "CNTSub": "namedtuple", "DCSub": "dataclass", "TDSub": "typeddict", "TDEmpty": "typeddict", "TDPEmpty": "typeddict"}
+            "NTSub": "namedtuple", "CNTSub": "namedtuple", "DCSub": "dataclass", "TDSub": "typeddict", "TDEmpty": "typeddict", "TDPEmpty": "typeddict",
+            "TDX": "typeddict", "TDXP": "typeddict", "TDXSub": "typeddict", "TDXF": "typeddict",
+            "CallDC": "dataclass", "CallNT": "namedtuple"}
     for n, fl in user.items():
         add(f"user.{n}", N[n], N[n], flavour=fl)
     for n in ["MyStr", "MyInt", "MyFloat", "MyBytes", "MyDict", "MyList", "MySet", "MyTuple", "MyDate", "MyDatetime", "MyTime",
@@ -279,6 +300,13 @@ def catalogue():
     for e in [x for x in cat if x["kind"] == "newtype"][::5]:
         nt2 = typing.NewType("NT2_" + e["obj"].__name__, e["obj"])
         add(f"NewType({e['name']})", nt2, e["resolved"], e["subscripted"], 2, "newtype", e["flavour"], e["abstract_of"])
+    # ... and NewType upon NewType three, four and five layers deep
+    for e in [x for x in cat if x["kind"] == "newtype" and x["wrapped"] == 2][::2]:
+        o, nm = e["obj"], e["name"]
+        for depth in (3, 4, 5):
+            o, nm = typing.NewType(f"NT{depth}_" + e["obj"].__name__, o), f"NewType({nm})"
+            if depth != 4:
+                add(nm, o, e["resolved"], e["subscripted"], depth, "newtype", e["flavour"], e["abstract_of"])
     _CAT = cat
     return cat
 
@@ -375,7 +403,7 @@ def check_catalogue(col, lo=0, step=1):
                 if r2[0] == "exc" or o is not r2[1]:
                     col.violation("stable", case, f"origin({name}) unstable", bucket="origin")
                 ann_origin = e["abstract_of"] or (typing.get_origin(e["obj"]) if e["kind"] == "generic" else None) or (res if e["kind"] == "class" else None)
-                if (ann_origin is not None and inspect.isclass(ann_origin) and not typing.is_typeddict(ann_origin)
+                if (ann_origin is not None and inspect.isclass(ann_origin) and not typing_extensions.is_typeddict(ann_origin)
                         and issubclass(ann_origin, cabc.Collection) and ann_origin not in (str, bytes, bytearray, memoryview, range)):
                     col.nt(f"origin|{name}")
                     if not inspect.isclass(o):
@@ -386,7 +414,7 @@ def check_catalogue(col, lo=0, step=1):
                         col.violation("origin-concrete-collection", case, f"origin({name}) = {o!r} is not a {ann_origin!r}", bucket="not-subclass")
                     elif ann_origin in ABSTRACT_TO_BUILTIN and (o is not ABSTRACT_TO_BUILTIN[ann_origin] or o() != ABSTRACT_TO_BUILTIN[ann_origin]()):
                         col.violation("origin-concrete-collection", case, f"origin({name}) = {o!r}, documented map says {ABSTRACT_TO_BUILTIN[ann_origin]!r}", bucket="map")
-                elif e["kind"] == "class" and o is not res and not _callable_class(res):
+                elif e["kind"] == "class" and o is not res:
                     col.violation("agrees-with-runtime", case, f"origin({name}) = {o!r}, expected the class itself", bucket="origin|class")
         # by-construction special-form answers
         judge("issubscriptedgeneric", bool(e["subscripted"]) if e["kind"] in ("generic", "abc", "typing", "class") else None, call("issubscriptedgeneric", obj))
@@ -399,7 +427,7 @@ def check_catalogue(col, lo=0, step=1):
             judge(pname, want, call(pname, obj))
         # structural predicates on direct classes only
         if e["kind"] == "class":
-            judge("istypeddict", typing.is_typeddict(obj), call("istypeddict", obj))
+            judge("istypeddict", typing_extensions.is_typeddict(obj), call("istypeddict", obj))
             judge("isnamedtuple", isinstance(obj, type) and issubclass(obj, tuple) and hasattr(obj, "_fields"), call("isnamedtuple", obj))
             judge("isfrozendataclass", bool(dataclasses.is_dataclass(obj) and obj.__dataclass_params__.frozen), call("isfrozendataclass", obj))
             judge("isabstract", inspect.isabstract(obj) or obj is numbers.Number, call("isabstract", obj))
@@ -432,7 +460,13 @@ def check_catalogue(col, lo=0, step=1):
             if r1[0] == "exc" or exact or (rq is not None and r1[1].rsplit(".", 1)[-1] != rq.rsplit(".", 1)[-1]):
                 col.violation("agrees-with-runtime", {"predicate": "qualname", "object": name},
                               f"qualname({name}) = {r1[1]!r}, runtime __qualname__ is {rq!r}", bucket="qualname|" + e["kind"])
-        if e["kind"] == "newtype" and e["wrapped"] == 1 and inspect.isclass(res) and not e["subscripted"] and e["abstract_of"] is None:
+        if e["kind"] == "newtype" and inspect.isclass(res) and not e["subscripted"] and e["abstract_of"] is None:
+            # (however many NewTypes are stacked)
+            r1, _ = call("resolve_supertype", obj)
+            col.ev()
+            if r1[0] == "exc" or r1[1] is not res:
+                col.violation("agrees-with-runtime", {"predicate": "resolve_supertype", "object": name},
+                              f"resolve_supertype({name}) = {r1[1]!r}, the chain of __supertype__ ends at {res!r}", bucket="resolve_supertype|newtype")
             judge("isbuiltintype", res in BUILTINS, call("isbuiltintype", obj))
             judge("isstdlibtype", res in STDLIB, call("isstdlibtype", obj))
             judge("isbuiltinsubtype", issubclass(res, tuple(BUILTINS)), call("isbuiltinsubtype", obj))
